@@ -760,6 +760,13 @@ pub fn work_list(cfg: &RunCfg) -> WorkList {
         fixed.push(Item::new(w, "start-anchor-shapes"));
     }
     if cfg.prop == "C01" || cfg.prop == "C02" {
+        for w in corpus::ingredient_sweep(false).iter() {
+            let mut it = Item::new(w, "ingredient-sweep");
+            it.n_extra = 0;
+            fixed.push(it);
+        }
+    }
+    if cfg.prop == "C01" || cfg.prop == "C02" {
         // a capture group under {0}, as generated trees (the parser must keep the group; seed S9-C02)
         for (e, s) in crate::exprgen::zero_repeat_families() {
             fixed.push(Item::from_tree(e, &s, "zero-repeat-tree"));
